@@ -237,6 +237,30 @@ def _triple_ok(a, ce, to, idx_t, angles_ok):
             isinstance(to, tuple) and to[0] == 'idx' and strip(to[2]) == idx_t and isinstance(strip(to[1]), tuple) and strip(to[1])[2] == 'tolerances' and angles_ok(strip(a)))
 
 
+def _zip_leaves(t, prefix=()):
+    """{tuple path: source} of a tree of Iterator::zip over plain iter() of the angles parameter / self.centers / self.tolerances,
+    or None when the term is anything else (an adaptor that skips, reverses or filters breaks the joint-by-joint pairing)"""
+    t = strip(t)
+    while isinstance(t, tuple) and t[0] == 'call' and cname(t[1]).split('::')[-1] == 'into_iter' and len(t) == 3:
+        t = strip(t[2])
+    if isinstance(t, tuple) and t[0] == 'call' and cname(t[1]) == 'Iterator::zip' and len(t) == 4:
+        l = _zip_leaves(t[2], prefix + ('0',))
+        r = _zip_leaves(t[3], prefix + ('1',))
+        if l is None or r is None:
+            return None
+        l.update(r)
+        return l
+    base, ad = util.iter_chain(t)
+    if any(a not in ('iter', 'into_iter', 'copied', 'cloned') for a in ad) or not ad:
+        return None
+    b0 = strip(base)
+    if util.is_param(b0, 2):
+        return {prefix: 'angles'}
+    if isinstance(b0, tuple) and b0[0] == 'fld' and b0[2] in ('centers', 'tolerances') and util.is_param(b0[1], 1):
+        return {prefix: b0[2]}
+    return None
+
+
 def _all_joints_inside(ctx, prog, comp, ib):
     """two idioms: iter().enumerate().all(closure) or a loop over 0..6 with `return false` on the failing edge"""
     alls = [(bi, t) for bi, t in comp.calls() if cname(callee_name(t)) == 'Iterator::all']
@@ -245,6 +269,24 @@ def _all_joints_inside(ctx, prog, comp, ib):
         bi, t = alls[0]
         base, ad = util.iter_chain(comp.op_term(t['args'][0], (bi, None)))
         rv = [strip(x[0]) for x in comp.return_values()]
+        zipped = _zip_leaves(strip(comp.op_term(t['args'][0], (bi, None))))
+        if zipped is not None and len(zipped) == 3 and len(rv) == 1 and rv[0] == strip(comp.call_term(t, (bi, None))):
+            # angles.iter().zip(centers.iter().zip(tolerances.iter())).all(|(a, (c, t))| inside(a, c, t)): joint k with centre k and tolerance k
+            c = cls[0]
+            ctx.fn(c)
+            crv = [strip(x[0]) for x in c.return_values()]
+            if len(crv) == 1 and isinstance(crv[0], tuple) and crv[0][0] == 'call' and crv[0][1] == ib.path and len(crv[0]) == 5:
+                def path_of(x):
+                    x = strip(x)
+                    p_ = []
+                    while isinstance(x, tuple) and x[0] == 'fld' and str(x[2]) in ('0', '1'):
+                        p_.insert(0, str(x[2]))
+                        x = strip(x[1])
+                    return tuple(p_) if util.is_param(x, 2) else None
+                srcs = [zipped.get(path_of(a)) for a in crv[0][2:5]]
+                ok = srcs == ['angles', 'centers', 'tolerances']
+                return ok, 'all over zip(angles, centers, tolerances) of inside(a, c, t)' if ok else 'closure pairs %s' % srcs
+            return False, 'closure does not return the membership test'
         if not (util.is_param(base, 2) and ad == ['iter', 'enumerate'] and len(rv) == 1 and rv[0] == strip(comp.call_term(t, (bi, None)))):
             return False, 'all() does not run over every (index, angle) of the argument'
         c = cls[0]
